@@ -69,6 +69,10 @@ def getattr(I, st, v, name):
             yield st, bytesmodel.memstream_getattr(I, st, v, name)
             return
         if e.kind == "obj":
+            if isinstance(e.cls, ClassVal) and e.cls.__dict__.get("_xmeta", 0) is not None:
+                from . import metaclass as _mc
+
+                _mc.ensure(I, st, e.cls)  # class attributes made by an executed metaclass (pyvc/metaclass.py)
             if name == "__class__":
                 yield st, e.cls
                 return
@@ -175,6 +179,15 @@ def getattr(I, st, v, name):
         if name == "__name__":
             yield st, v.name
             return
+        if v.__dict__.get("_xmeta", 0) is not None:
+            from . import metaclass as _mc
+
+            found, gv = _mc.class_getattr(I, st, v, name)  # class made by an executed metaclass: MRO-aware look-up
+            if found:
+                if isinstance(gv, FuncVal) and "classmethod" in gv.decorators():
+                    gv = BoundMethod(gv, v)
+                yield st, gv
+                return
         if ("classattr", id(v.node), name) in st.ghost:
             yield st, st.ghost[("classattr", id(v.node), name)]
             return
@@ -223,6 +236,9 @@ def getattr(I, st, v, name):
             return
         if v.name == "dict" and name == "fromkeys":
             yield st, bi("dict.fromkeys", _dict_fromkeys)
+            return
+        if v.name == "int" and name == "from_bytes":
+            yield st, bi("int.from_bytes", _int_from_bytes)
             return
         if v.name == "float" and name == "fromhex":
             raise Unsupported("float.fromhex")
@@ -279,6 +295,11 @@ def getattr(I, st, v, name):
                     raise Unsupported("dict.%s with %d arguments" % (name, len(a)))
 
             yield st, bi("dict." + name, _dict_special)
+            return
+        if v.name == "type" and name == "__new__":
+            from . import metaclass as _mc
+
+            yield st, bi("type.__new__", _mc.type_new)
             return
         if v.name == "object" and name == "__setattr__":
             # object.__setattr__(obj, name, value): the default attribute store (bypasses a __setattr__ override);
@@ -437,6 +458,9 @@ def getattr(I, st, v, name):
     if is_boollike(v) and name == "__bool__":
         yield st, simple("bool.__bool__", lambda I, st: v)
         return
+    if isinstance(v, int) and not isinstance(v, bool) and name == "to_bytes":
+        yield st, bi("int.to_bytes", lambda I, st, a, k, v=v: _int_to_bytes(I, st, v, a, k))
+        return
     if is_z3(v) or isinstance(v, (int, Fraction)):
         if name == "real":
             yield st, v
@@ -463,6 +487,47 @@ def getattr(I, st, v, name):
     if isinstance(v, Unknown):
         raise Unsupported("attribute %s of unmodelled %s" % (name, v.desc))
     raise Unsupported("attribute %s of %r" % (name, v))
+
+
+def _int_bytes_args(a, k, names):
+    """positional / keyword arguments of int.to_bytes / int.from_bytes; length and byteorder must be given (their
+    defaults exist only from Python 3.11 on) and concrete"""
+    k = dict(k)
+    vals = {}
+    for n, x in zip(names, a):
+        vals[n] = x
+    for n in list(k):
+        if n in names and n not in vals:
+            vals[n] = k.pop(n)
+    signed = k.pop("signed", False)
+    if k or len(a) > len(names) or any(n not in vals for n in names):
+        raise Unsupported("int.to_bytes / int.from_bytes: length and byteorder must be given explicitly")
+    if vals["byteorder"] not in ("little", "big") or not isinstance(signed, bool):
+        raise Unsupported("int.to_bytes / int.from_bytes: byteorder / signed")
+    return vals, signed
+
+
+def _int_to_bytes(I, st, v, a, k):
+    """(concrete int).to_bytes(length, byteorder, *, signed=False): exact (python's own), OverflowError included"""
+    vals, signed = _int_bytes_args(a, k, ("length", "byteorder"))
+    n = vals["length"]
+    if isinstance(n, bool) or not isinstance(n, int):
+        raise Unsupported("int.to_bytes with a symbolic length")
+    try:
+        yield st, v.to_bytes(n, vals["byteorder"], signed=signed)
+    except OverflowError as e:
+        yield st, exc("OverflowError", str(e))
+    except ValueError as e:
+        yield st, exc("ValueError", str(e))
+
+
+def _int_from_bytes(I, st, a, k):
+    """int.from_bytes(concrete bytes, byteorder, *, signed=False): exact (python's own)"""
+    vals, signed = _int_bytes_args(a, k, ("bytes", "byteorder"))
+    b = vals["bytes"]
+    if not isinstance(b, (bytes, bytearray)):
+        raise Unsupported("int.from_bytes of %r" % (b,))
+    yield st, int.from_bytes(bytes(b), vals["byteorder"], signed=signed)
 
 
 def _descriptor_method(I, st, val, which):
@@ -628,6 +693,10 @@ def setattr(I, st, obj, name, v, raw=False):
         return
     if isinstance(obj, ClassVal):
         # class attribute rebinding (e.g. instance counters): kept per path
+        if obj.__dict__.get("_xmeta", 0) is not None:
+            from . import metaclass as _mc
+
+            _mc.ensure(I, st, obj)
         st.ghost[("classattr", id(obj.node), name)] = v
         yield st, None
         return
@@ -1603,6 +1672,12 @@ def type_of(I, st, v):
         return BuiltinClass("NoneType", type(None))
     if isinstance(v, ExcVal):
         return v.cls
+    if isinstance(v, ClassVal):
+        from . import metaclass as _mc
+
+        m = _mc.executed(I, v)
+        if m is not None:
+            return m  # type(cls) of a class made by a metaclass the engine executes
     raise Unsupported("type() of %r" % (v,))
 
 
@@ -1625,6 +1700,16 @@ def to_int(I, st, v):
         yield from _int_of_fmtstr(I, st, v)
     elif isinstance(v, Opaque):
         raise Unsupported("int() of an uninterpreted string")
+    elif isinstance(v, Ref) and st.get(v).kind == "obj" and isinstance(st.get(v).cls, ClassVal) and isinstance(
+            I.class_lookup(st.get(v).cls, "__int__")[0], FuncVal):
+        # int(obj) is type(obj).__int__(obj); the result must be an int
+        for st1, r in I.call(I.class_lookup(st.get(v).cls, "__int__")[0], [v], {}, st):
+            if isinstance(r, Exc) or (is_intlike(r) and not is_boollike(r)):
+                yield st1, r
+            elif is_boollike(r):
+                raise Unsupported("__int__ returning a bool")
+            else:
+                yield st1, exc("TypeError", "__int__ returned non-int")
     else:
         yield st, exc("TypeError", "int() argument")
 
